@@ -65,6 +65,25 @@ def mentions_param(f, tid, seen=None):
     return False
 
 
+def closure_body_of(f, body, operand, bodies):
+    """Path of the crate closure body if the operand is a whole local holding a closure (possibly by reference)."""
+    pl = None
+    if isinstance(operand, dict):
+        if "l" in operand and "p" in operand and len(operand) == 2:
+            pl = operand
+        else:
+            inner = [v for v in operand.values() if isinstance(v, dict) and "l" in v and "p" in v and len(v) == 2]
+            pl = inner[0] if len(inner) == 1 else None
+    if pl is None or pl["p"]:
+        return None
+    t = f.ty(body["locals"][pl["l"]]["ty"])
+    while t["k"] == "ref":
+        t = f.ty(t["to"])
+    if t["k"] == "closure" and t.get("path") in bodies:
+        return t["path"]
+    return None
+
+
 def param_rule(f, gpath):
     """(ok, why, stats). Parametricity premise: in the generic search `gpath` and in every generic crate function
     it hands its list to, a value whose type mentions the type parameter is only moved, reborrowed, returned, or
@@ -127,7 +146,16 @@ def param_rule(f, gpath):
                     tgt = dec["def"] if dec["def"] in bodies else [b_["path"] for b_ in f.bodies if b_["key"] == dec.get("key")][0]
                     work.append(tgt)
                 else:
-                    problems.append("%s bb%d: the list is handed to %s" % (path, bi, dec["def"]))
+                    # a foreign function may be given the list only inside a closure of this crate: all it can do with
+                    # an opaque closure is call it (or not), and the closure's body is examined by this same rule
+                    clos = []
+                    for a, m_ in zip(t["args"], argm):
+                        if m_:
+                            clos.append(closure_body_of(f, body, a, bodies))
+                    if clos and all(c is not None for c in clos):
+                        work.extend(clos)
+                    else:
+                        problems.append("%s bb%d: the list is handed to %s" % (path, bi, dec["def"]))
             elif t["k"] in ("switch", "assert") and uses(t):
                 problems.append("%s bb%d: control flow depends on a value of the parameter's type" % (path, bi))
         # provided methods reached through trait calls are generic code too
